@@ -467,6 +467,10 @@ func jpfAvg(arguments []interface{}) (interface{}, error) {
 	for _, n := range args {
 		numerator += n.(float64)
 	}
+	if math.IsInf(numerator, 0) {
+		// The sum left the range of JSON numbers: an error, not an infinity.
+		return nil, errors.New("invalid value: avg() result is out of range")
+	}
 	return numerator / length, nil
 }
 func jpfCeil(arguments []interface{}) (interface{}, error) {
@@ -615,6 +619,10 @@ func jpfSum(arguments []interface{}) (interface{}, error) {
 	sum := 0.0
 	for _, item := range items {
 		sum += item
+	}
+	if math.IsInf(sum, 0) {
+		// The sum left the range of JSON numbers: an error, not an infinity.
+		return nil, errors.New("invalid value: sum() result is out of range")
 	}
 	return sum, nil
 }
